@@ -19,8 +19,33 @@ def call_sites(ctx, names: set[str]):
                     yield fi, n
 
 
+def effective_allowed(ctx, allowed: set[str]) -> set[str]:
+    """allowed sites plus private helpers that are called only from allowed sites (a helper extracted from an owner
+    is part of the owner)"""
+    from ..index import FuncInfo as _FI
+
+    if getattr(ctx, "_caller_names", None) is None:
+        m: dict[str, set] = {}
+        for fi in ctx.ix.all_functions():
+            for _node, callee in ctx.eng.summary(fi).calls:
+                if isinstance(callee, _FI) and callee is not fi:
+                    m.setdefault(callee.qualname, set()).add(fi.qualname)
+        ctx._caller_names = m
+    out = set(allowed)
+    changed = True
+    while changed:
+        changed = False
+        for callee, callers in ctx._caller_names.items():
+            nm = callee.split(".")[-1]
+            if callee not in out and nm.startswith("_") and not nm.startswith("__") and callers and callers <= out:
+                out.add(callee)
+                changed = True
+    return out
+
+
 def who_may_call(ctx, res: Result, names: set[str], allowed: set[str], rule: str, what: str, floor: int) -> None:
     n = 0
+    allowed = effective_allowed(ctx, allowed)
     for fi, node in call_sites(ctx, names):
         n += 1
         inst = f"{fi.qualname}:{src(node.func)}"
@@ -35,6 +60,7 @@ def who_may_call(ctx, res: Result, names: set[str], allowed: set[str], rule: str
 
 def who_may_read_attr(ctx, res: Result, attr: str, allowed: set[str], rule: str, what: str, floor: int) -> None:
     n = 0
+    allowed = effective_allowed(ctx, allowed)
     for fi in ctx.ix.all_functions():
         for node in walk_no_nested(fi.node):
             if isinstance(node, ast.Attribute) and node.attr == attr and isinstance(node.ctx, ast.Load):
